@@ -90,6 +90,10 @@ Definition ops : list (string * (tree -> tree)) := [
       let r i := ret_or_nil (nth (k + i) es (mkEv [] None)) in
       ofB (wf_hist_b c h
            && exports_agree_b rendered (r 0%nat) (r 2%nat) (r 1%nat)));
+  ("spec.styled_export", fun t =>   (* [table, record, styled]: styled = the record under its own styles, truecolor *)
+      let c0 := mkCfg 0 false 0 false false in
+      ofB (str_eqb (tStr (tNth t 2))
+             (export_styled (t_truthy (tL (tNth t 0))) (t_esc (tL (tNth t 0)) c0) (tSegs (tNth t 1)))));
   ("spec.no_exception", fun t => ofB (tB t));   (* 0 = a console call of the history raised *)
   ("spec.balanced", fun t => ofB (balanced (tList tOp t)));
   ("visible", fun t => ofStr (visible (tStr t)));
